@@ -3,6 +3,6 @@
 cd "$(dirname "$0")/.."
 tier=${1:-quick}
 for p in $(python3 -c "import json;print(' '.join(c['property_id'] for c in json.load(open('MANIFEST.json'))['checks']))"); do
-  s=$(date +%s); out=$(./check $p $tier 2>&1 | grep -E "^(OK|VIOLATION|KNOWN|gosym|note|warning)" | cut -c1-200 | tail -3); e=$(date +%s)
+  s=$(date +%s); out=$(timeout ${CHECK_TIMEOUT:-3000} ./check $p $tier 2>&1 | grep -E "^(OK|VIOLATION|KNOWN|gosym|note|warning)" | cut -c1-200 | tail -3); e=$(date +%s)
   echo "$p $((e-s))s: $out"
 done
